@@ -985,7 +985,27 @@ def rule_plumbing(check):
     rw = prog.fn("lib_wasm::Rewriter::rewrite")
     me = [n for n in hir.calls_in(rw.body, name="map_err")]
     ret = [hir.peel(r) for r in return_exprs(rw.body)]
-    check.expect(len(me) >= 1 and me[0] in ret, R, R + "/map_err", hir.loc(rw.rec), "Err(e) -> JsError", "the wasm entry point does not map rewrite errors to JsError")
+    ok_me = len(me) >= 1 and me[0] in ret
+    if not ok_me:
+        # the same hand-over spelled with a match: `match rewrite_js(..) { Ok(o) => o, Err(e) => return Err(JsError::new(..)) }`
+        # (or `?`): the failure of the rewrite leaves the entry point as its own Err value, built from a JsError
+        for m_ in [x for x in hir.walk(rw.body) if x.get("k") == "Match"]:
+            sc = hir.peel(m_["scrut"])
+            if (m_.get("source") or "").startswith("TryDesugar"):
+                sc = hir.peel(hir.call_args(sc)[0]) if hir.is_call(sc) and hir.call_args(sc) else sc
+            if not (hir.is_call(sc) and hir.callee_name(sc) == "rewrite_js"):
+                continue
+            if (m_.get("source") or "").startswith("TryDesugar"):
+                ok_me = "JsError" in (rw.rec.get("ret") or "")
+                continue
+            for a_ in m_["arms"]:
+                if str(hir.pat_variant(a_["pat"])).split("::")[-1] != "Err":
+                    continue
+                errs_ = [y for y in hir.walk(a_["body"]) if y.get("k") == "Call" and (hir.peel(y["f"]).get("res", {}).get("ctor_path") or "").split("::")[-1] == "Err"]
+                js_ = any("JsError" in ((z.get("callee") or {}).get("path") or "") + (z.get("ty") or "") for y in errs_ for z in hir.walk(y))
+                leaves = hir.diverges(a_["body"]) or bool(errs_)
+                ok_me = ok_me or (bool(errs_) and js_ and leaves)
+    check.expect(ok_me, R, R + "/map_err", hir.loc(rw.rec), "Err(e) -> JsError", "the wasm entry point does not map rewrite errors to JsError")
     es = prog.fn("rewriter::extract_source_map")
     # a missing / unreadable / undecodable map is "no map", never an error of the rewrite: the function cannot
     # hand an error back (its result type carries none) and every Result it obtains is consumed by `.ok()` or
